@@ -28,6 +28,14 @@
 (*   extra*          (a) result <= closure(MUST + MAY); the suffix names   *)
 (*                   the modelled deviation that explains ALL extras       *)
 (*   structure2 / not_idempotent   (d) c = b                               *)
+(* A record with field "raised" (instead of b, map) says that the run      *)
+(* ended with pytools' NonUniqueTagError; rec.groups lists the pairs of    *)
+(* tag names that may not share an axis.  Documented: unify_axes_tags      *)
+(* "by itself does not raise if an axis is tagged with multiple tags of    *)
+(* type tag_t" unless they are UniqueTags -- so the error is allowed iff   *)
+(* some axis may receive two such tags (upper bound), clause               *)
+(* unexpected_unique_error otherwise.  (Conversely, a result that lacks a  *)
+(* conflicting tag the lower bound demands fails clause "missing".)        *)
 (***************************************************************************)
 EXTENDS PtAxes, Json, IOUtils
 
@@ -93,8 +101,15 @@ Clause(rec) ==
       br == BridgeEqs(ax, srcAx, PT)
       bc == BcastRednEqs(a)
       upWith(ex) == Closure(vs, must \cup may \cup ex, ignAx, t0, PT)
+      conflict(up) == \E v \in judged : \E q \in DOMAIN rec.groups :
+                         Range(rec.groups[q]) \subseteq t0[v] \cup up[v]
   IN
-  IF ~SameStructure(a, b, m) THEN "structure"
+  IF "raised" \in DOMAIN rec THEN
+       (IF ~ShapesReadable(a) THEN "spec_shape"
+        ELSE IF conflict(upper) THEN "ok"
+        ELSE IF conflict(upWith(br \cup bc)) THEN "unique_error_via_shared_tag"
+        ELSE "unexpected_unique_error")
+  ELSE IF ~SameStructure(a, b, m) THEN "structure"
   ELSE IF ~ShapesReadable(a) THEN "spec_shape"
   ELSE IF \E v \in vs : ~(t0[v] \subseteq tr[v]) THEN "tag_removed"
   ELSE IF ~rec.redn /\ \E v \in rd : tr[v] # t0[v] THEN "redn_touched"
